@@ -1,5 +1,6 @@
 import Norad.Lemmas.C16
 import Norad.Lemmas.C16Stable
+import Norad.Lemmas.C16Save
 /-!
 # C16 — data and image stores keep their invariants and their bytes
 
@@ -248,6 +249,44 @@ theorem save_writes_verbatim (data images : Store) (dd di : Disk) (d1 i1 : Store
         · exact Or.inr (b2 w hw)
       · simp at h
 
+/-- the two `expect("internal error: should have been checked")` of `font.rs:529,548` are
+    unreachable: under the invariant the cells written after the wipe are the cells forced before it,
+    so when both forcing passes found no error every cell is `Loaded` and the outcome is `effects` or
+    `refused`, never `panic` -/
+theorem save_never_panics (data images : Store) (dd di : Disk) (hd : Inv data) (hi : Inv images) :
+    (saveStores data images dd di).2 ≠ .panic := by
+  unfold saveStores
+  split
+  · simp
+  · rename_i d1 hfd
+    split
+    · simp
+    · rename_i i1 hfi
+      have h1 := writesOf_isSome_after_force hd hfd
+      have h2 := writesOf_isSome_after_force hi hfi
+      cases ha : writesOf d1 with
+      | none => rw [ha] at h1; simp at h1
+      | some a =>
+        cases hb : writesOf i1 with
+        | none => rw [hb] at h2; simp at h2
+        | some b => simp
+
+/-- `destination.parent().unwrap()` (`font.rs:531`) is unreachable: a relative key joined onto a
+    directory path with at least one component (`<target>/data`) has a parent -/
+theorem store_destination_has_parent (dir : P) (k : Key) (hdir : dir.comps ≠ [])
+    (hrel : (parse k).abs = false) : ((dir.join (parse k)).parent?).isSome = true := by
+  unfold P.join
+  simp only [hrel, Bool.false_eq_true, ↓reduceIte]
+  have he : dir.isEmpty = false := by
+    unfold P.isEmpty
+    cases hc : dir.comps with
+    | nil => exact absurd hc hdir
+    | cons a l => simp
+  simp only [he, Bool.false_eq_true, ↓reduceIte, P.parent?]
+  cases hc : dir.comps with
+  | nil => exact absurd hc hdir
+  | cons a l => simp
+
 /-- under the invariant two different entries are never written to the same place, nor one below
     the other: their keys differ by components and neither is a path prefix of the other -/
 theorem save_writes_never_collide (s : Store) (h : Inv s) (a b : Key) (ha : a ∈ keys s) (hb : b ∈ keys s)
@@ -343,8 +382,6 @@ theorem store_accepts_trailing_separator_counterexample :
   `.`/`..`; paths distinct; every proper prefix of an entry is a `dir` entry),
   `newStore kind t = .ok s → Inv s`.  Needs `parse (keyOfNames ns) = ⟨false, ns.map .normal⟩`.
   The correspondence checks the listing itself (keys after `LOAD`) on generated trees.
-* `save_never_panics`: under `Inv`, when both forcing passes return `none`, `writesOf` is `some`
-  (the `expect("internal error: should have been checked")` is unreachable).
 * `iter` is independent of the map order (each `get` touches only its own cell).
 -/
 
